@@ -602,6 +602,8 @@ class _Run:
                 raise TypeErr(f"_weight_int8pack_mm contracts {a} with {w}")
             if s.labels != (w.labels[0],):
                 raise TypeErr(f"_weight_int8pack_mm scales {s} do not run along the weight rows {w.labels[0]}")
+            if getattr(s, "stride0", False):
+                raise TypeErr("_weight_int8pack_mm is given a broadcast (stride-0) view of the scales: the kernel reads raw storage past the single element (platform table: the scales must be a dense 1-D tensor)")
             self.i.log.append((name, repr(a), repr(w), repr(s)))
             return T((a.labels[0], w.labels[0]), "float", None, a.codes | w.codes, a.scales + w.scales + s.scales)
         if name == "Size":
@@ -630,6 +632,24 @@ class _Run:
                 if len(recv.labels) < 2:
                     return recv
                 raise TypeErr(f".t() on a rank-{len(recv.labels)} tensor {recv}")
+            if name in ("expand", "expand_as", "broadcast_to") and isinstance(recv, T):
+                # a view with stride 0 along every broadcast dimension
+                if name == "expand_as" and args and isinstance(args[0], T):
+                    shape = tuple(args[0].labels)
+                else:
+                    shape = tuple(self.i_shape(args)) if hasattr(self, "i_shape") else None
+                    if shape is None:
+                        flat = args[0] if len(args) == 1 and isinstance(args[0], (tuple, list)) and args[0] and isinstance(args[0][0], tuple) else args
+                        shape = tuple(flat)
+                if not all(isinstance(l, tuple) for l in shape):
+                    raise Unknown("expand to a non-symbolic shape")
+                old_l = ((),) * (len(shape) - len(recv.labels)) + tuple(recv.labels)
+                for o, n_ in zip(old_l, shape):
+                    if o not in ((), n_):
+                        raise TypeErr(f"expand: {recv} does not broadcast to {shape}")
+                r_ = recv.like(shape)
+                r_.stride0 = any(o == () and n_ != () for o, n_ in zip(old_l, shape))
+                return r_
             if name in ("to", "contiguous", "float", "half", "bfloat16", "clone", "detach", "type"):
                 # single rounding: an accumulator of raw codes is narrowed to the output dtype only once every payload is scaled
                 narrowing = name in ("half", "bfloat16") or (name in ("to", "type") and isinstance(node, ast.Call) and node.args
